@@ -1155,10 +1155,17 @@ func (r *RouteTable) resyncIface(nl netlinkshim.Interface, ifaceName string) err
 			// Return the error so that the caller leaves the interface queued for
 			// rescan and Apply() reports the failure and retries.
 			return filteredErr
-		} else {
+		} else if errors.Is(filteredErr, ErrIfaceDown) || errors.Is(filteredErr, ErrIfaceNotPresent) {
 			r.logCxt.WithError(filteredErr).WithField("iface", ifaceName).Debug(
 				"Failed to list routes; interface down/gone.")
 			return nil
+		} else {
+			// For example, we failed to reconnect to netlink while checking the
+			// interface state.  Keep the interface queued for rescan.
+			r.logCxt.WithError(filteredErr).WithField("iface", ifaceName).Warn(
+				"Failed to list routes and failed to check interface state.")
+			r.nl.MarkHandleForReopen()
+			return filteredErr
 		}
 	}
 
